@@ -24,11 +24,8 @@ def build_seq():
 
 def prebuild():
     build_seq()
-    try:
-        from props import C19conc
-        C19conc.build()
-    except ImportError:
-        pass
+    from vlib import arrconc
+    arrconc.build()
 
 
 # ------------------------------------------------------------------ generator
@@ -317,14 +314,10 @@ def run(ctx):
     rule = ("sequential: scripts create/index/grow/num_bins/store/load over boundary-directed configurations "
             "(sizes around multiples of 16 and 65536, element sizes 1..1000, autogrow on/off, callback on/off); "
             "non-trivial = at least 3 API calls and one successful index; distinct = distinct scripts")
-    try:
-        from props import C19conc
-    except ImportError:
-        C19conc = None
-    if C19conc is not None:
-        crule, csamples = C19conc.run_conc(ctx, res, thorough)
-        rule += "; " + crule
-        samples += csamples
+    from vlib import arrconc
+    crule, csamples = arrconc.run_conc(ctx, res, thorough)
+    rule += "; " + crule
+    samples += csamples
     res.rule = rule
     res.samples = samples
     res.extra["monitor"] = ("independent Python statement of C19 over the implementation log with raw pointers "
@@ -339,8 +332,8 @@ def run(ctx):
 
 def replay(ctx, payload):
     if payload.get("part") == "concurrent":
-        from props import C19conc
-        return C19conc.replay(ctx, payload)
+        from vlib import arrconc
+        return arrconc.replay(ctx, payload)
     exe = build_seq()
     model = C.build_model(ID)
     case = payload["script"]
